@@ -2,7 +2,7 @@ SPECIFICATION Spec
 CONSTANTS
   Mode = "scaled"
   Big = FALSE
-  MaxS = 10
+  MaxS = 11
   Alphabet = {97, 98}
   Base = 1
   Off2N = 2
